@@ -27,7 +27,7 @@ from .. import core, e2, observe, progcheck
 PID = "C09"
 LEVEL = "model_checking"
 
-STATIC_IDS = ["_", "__", "k", "v", "self", "it", "itertools", "importlib", "cls", "x", "args", "i", "q", "__class__"]
+STATIC_IDS = ["_", "__", "k", "v", "self", "it", "itertools", "importlib", "cls", "x", "args", "i", "q", "done_", "_private", "a1", "__class__"]
 STATIC_BUILTINS = ["type", "setattr", "hasattr", "iter", "next", "slice", "tuple", "list", "globals", "locals", "__import__", "classmethod", "staticmethod"]
 
 FEATURES = {
@@ -46,6 +46,9 @@ FEATURES = {
     "aug-sub": "d = [1, 2]\nd[0] += 1\nd[0:1] += [{USE}]\nprint(d)\n",
     "aug-attr": "class O:\n    pass\no = O()\no.z = [1]\no.z += [{USE}]\nprint(o.z)\n",
     "slice-store": "d = [1, 2, 3]\nd[0:2] = [{USE}]\nprint(d)\n",
+    "tuple-slice-store": "class G:\n    def __setitem__(s, k, v):\n        print('set', k, v)\n    def __getitem__(s, k):\n        return 1\ng = G()\ng[1:3, 0] = {USE}\ng[0, ::2] += 1\n",
+    "ifexp-tail": "t = 1\nr = {USE} if t else 0\nq = 0 if {USE} else {USE}\nprint(r, q)\n",
+    "cond-tail": "t = 0\nn = 0\nwhile n < 1 and {USE}:\n    n += 1\nif t or {USE}:\n    print(n)\nelse:\n    print('e')\n",
     "chain3": "print(1)\nprint({USE})\nprint(3)\n",
     "global-store": "def f():\n    global g\n    g = {USE}\nf()\nprint(g)\n",
     "nonlocal": "def f():\n    c = 0\n    def h():\n        nonlocal c\n        c += 1\n        return {USE}\n    return (h(), c)\nprint(f())\n",
